@@ -298,8 +298,35 @@ func c28Mutants(r *Rng, base c29Request, presigned bool, now int64, tsNs int64, 
 			q.Headers[i] = append(q.Headers[i], "evil")
 		})
 		outer := "Y"
-		if i := c28HeaderIdx(base, canon); len(base.Headers[i]) != 2 || name == "x-amz-date" || name == "x-amz-content-sha256" {
-			outer = "-" // inner values of a multi-valued header are not trimmed; the timestamp / payload literal are read untrimmed
+		if name == "x-amz-date" || name == "x-amz-content-sha256" {
+			outer = "-" // the timestamp / payload literal are read untrimmed by parseSignatureParameters / generateCanonicalRequest
+		}
+		if hv := base.Headers[c28HeaderIdx(base, canon)]; len(hv) > 1 && strings.Contains(strings.TrimSpace(hv[1]), " ") {
+			// Trimall identifies runs of inner spaces of any length (SigV4 specification; /repo bc241f9)
+			add("signed-header-inner-space-run:"+name, "Y", func(q *c29Request) {
+				h := q.Headers[c28HeaderIdx(*q, canon)]
+				h[1] = strings.ReplaceAll(h[1], " ", "   ")
+			})
+			add("signed-header-inner-space-removed:"+name, "N", func(q *c29Request) {
+				h := q.Headers[c28HeaderIdx(*q, canon)]
+				t := strings.TrimSpace(h[1])
+				i := strings.Index(t, " ")
+				j := i
+				for j < len(t) && t[j] == ' ' {
+					j++
+				}
+				h[1] = t[:i] + t[j:]
+			})
+			add("signed-header-inner-space-to-tab:"+name, "N", func(q *c29Request) {
+				h := q.Headers[c28HeaderIdx(*q, canon)]
+				t := strings.TrimSpace(h[1])
+				i := strings.Index(t, " ")
+				j := i
+				for j < len(t) && t[j] == ' ' {
+					j++
+				}
+				h[1] = t[:i] + "\t" + t[j:]
+			})
 		}
 		add("signed-header-outer-space:"+name, outer, func(q *c29Request) { // outer white space is not part of the value
 			h := q.Headers[c28HeaderIdx(*q, canon)]
@@ -531,8 +558,8 @@ func c28Base(r *Rng) (*c29Signed, c29ClientReq, string, string, int64, int64) {
 		cred := c29Creds[r.Intn(len(c29Creds))]
 		at, _ := c29GenTimes(r, c.Presign, c.ExpiresS)
 		s, err := c29SdkSign(c, cred[0], cred[1], c29Region, at)
-		if err != nil || !c29StdPath(s.Req.Path) || c29HasRunOfSpaces(s.Req.Headers) || c29QueryOrderDiffers(s.Req.Query) {
-			continue // keep to the region where the original is accepted (C29's findings excluded)
+		if err != nil || !c29StdPath(s.Req.Path) || c29QueryOrderDiffers(s.Req.Query) {
+			continue // keep to the region where the original is accepted (C29's open finding excluded)
 		}
 		exp := int64(300)
 		if c.Presign {
